@@ -298,6 +298,22 @@ fn part_iii(ctx: &mut Ctx) {
             fam.push(f);
         }
     }
+    // \\u escapes: every sequence of <=3 escapes over {high surrogate, low surrogate, BMP, the highest and lowest of each
+    // range}, as a value, as a member name, at the end of the input, and through (parse .)
+    {
+        let esc = ["\\uD83D", "\\uDE03", "\\u00e9", "\\uD800", "\\uDBFF", "\\uDC00", "\\uDFFF", "\\uFFFF", "x"];
+        let mut seqs: Vec<Vec<usize>> = Vec::new();
+        crate::explore::seqs_upto(esc.len(), 3, |s| seqs.push(s.to_vec()));
+        for s in seqs {
+            if s.is_empty() {
+                continue;
+            }
+            let body: String = s.iter().map(|i| esc[*i]).collect();
+            fam.push(format!("\"{body}\" 1\n").into_bytes());
+            fam.push(format!("{{\"{body}\": [\"{body}\"]}} [2]").into_bytes());
+            fam.push(format!("[\"a{body}").into_bytes());
+        }
+    }
     for f in fam {
         if !ctx.mine() {
             continue;
@@ -310,7 +326,7 @@ fn part_iii(ctx: &mut Ctx) {
 }
 
 pub const ATOMS: &[&str] = &[
-    "null", "true", "false", "0", "1", "2", "-1", "1.5", "10000", "9007199254740992", "-9223372036854775808", "18446744073709551615", "\"\"", "\"a\"", "\"é\"", "\"aé😃\"",
+    "null", "true", "false", "0", "1", "2", "4", "5", "-1", "1.5", "10000", "9007199254740992", "-9223372036854775808", "18446744073709551615", "\"\"", "\"a\"", "\"é\"", "\"aé😃\"",
     "\"12\"", "\"a,b\"", "\"\u{ff11}\u{ff12}\"", "\"\u{b2}\"", "[]", "[1,2,3]", "[\"a\",\"b\"]", "{}", "{\"a\":1,\"b\":2}", ".nokey", ".", "(= . 1)", ".a",
 ];
 pub const INPUTS: &[&str] = &["{\"a\":[1,2],\"b\":\"é\"}", "[3,\"x\",null]", "\"é😃\"", "7"];
